@@ -39,22 +39,14 @@ func configs(thorough bool) (pdiff.Config, []pdiff.Config, []pdiff.Config) {
 			}
 		}
 	} else {
-		// Single flips: each optimizer level with the switches off; each
-		// switch on alone; all on (the shipped defaults) at levels 0-2; each
-		// switch off alone at level 2; the smallest and a large symbol
-		// allocation at two corners.
-		for opt := 1; opt <= 3; opt++ {
-			all = append(all, pdiff.Config{Opt: opt})
-		}
-
+		// Single flips. In every type mode: optimizer 2, each switch on alone,
+		// everything on. In dynamic mode only: optimizer 1 and 3, optimizer 2
+		// with registers or constant folding, all switches on at level 0, the
+		// smallest and a large symbol allocation at two corners.
+		all = append(all, pdiff.Config{Opt: 1}, pdiff.Config{Opt: 2}, pdiff.Config{Opt: 3})
 		all = append(all, pdiff.Config{Reg: 1}, pdiff.Config{Fold: 1}, pdiff.Config{Cache: 1})
-		all = append(all, pdiff.Config{Opt: 2, Reg: 1}, pdiff.Config{Opt: 2, Fold: 1}, pdiff.Config{Opt: 2, Cache: 1})
-
-		for opt := 0; opt <= 2; opt++ {
-			all = append(all, pdiff.Config{Opt: opt, Reg: 1, Fold: 1, Cache: 1})
-		}
-
-		all = append(all, pdiff.Config{Opt: 2, Fold: 1, Cache: 1}, pdiff.Config{Opt: 2, Reg: 1, Cache: 1}, pdiff.Config{Opt: 2, Reg: 1, Fold: 1})
+		all = append(all, pdiff.Config{Opt: 2, Reg: 1}, pdiff.Config{Opt: 2, Fold: 1})
+		all = append(all, pdiff.Config{Reg: 1, Fold: 1, Cache: 1}, pdiff.Config{Opt: 2, Reg: 1, Fold: 1, Cache: 1})
 		all = append(all, pdiff.Config{Alloc: 16}, pdiff.Config{Opt: 2, Reg: 1, Fold: 1, Cache: 1, Alloc: 1024})
 	}
 
@@ -69,7 +61,7 @@ func configs(thorough bool) (pdiff.Config, []pdiff.Config, []pdiff.Config) {
 		}
 
 		// Quick: the optimizer alone, the switches alone, both together.
-		if on := c.Reg + c.Fold + c.Cache; thorough || (on == 0 && c.Opt == 2) || (on == 3 && c.Opt != 1) {
+		if on := c.Reg + c.Fold + c.Cache; thorough || (on == 0 && c.Opt == 2) || on == 3 {
 			corpus = append(corpus, c)
 		}
 	}
@@ -95,14 +87,17 @@ func main() {
 	}
 
 	if !r.Thorough() {
-		// Quick: configurations that combine several settings run in dynamic
-		// mode only; every single-setting configuration runs in all modes.
 		plan.ComboModes = []string{"dynamic"}
+		plan.AllModes = map[string]bool{}
+
+		for _, c := range []pdiff.Config{{Opt: 2}, {Reg: 1}, {Fold: 1}, {Cache: 1}, {Opt: 2, Reg: 1, Fold: 1, Cache: 1}} {
+			plan.AllModes[c.Label()] = true
+		}
 	}
 
-	r.Rule(fmt.Sprintf("programs: every statement form (16 assignment/increment shapes, comparisons, constant expressions, loops, package constants, globals, closures, try/catch, collections, structs, strings, dynamic typing, control flow, scopes, aborting programs) over every numeric type and the listed initial values/constants%s; each program x %d configurations (optimizer 0-3 x registers/constfold/globalcache %s) x 3 type modes (quick: multi-setting configurations in dynamic mode only) against the baseline (optimizer 0, all three off); plus every test block of tests/**.ego under %d configurations x 3 modes. distinct = (mode, program) that produces output or an error under the baseline, and (mode, corpus test block) stable in two baseline runs",
+	r.Rule(fmt.Sprintf("programs: every statement form (16 assignment/increment shapes, comparisons, constant expressions, loops, package constants, globals, closures, try/catch, collections, structs, strings, dynamic typing, control flow, scopes, aborting programs) over every numeric type and the listed initial values/constants%s; each program x %d configurations (optimizer 0-3 x registers/constfold/globalcache %s) x type modes against the baseline (optimizer 0, all three off); plus every test block of tests/**.ego under %d configurations x 3 modes. distinct = (mode, program) that produces output or an error under the baseline, and (mode, corpus test block) stable in two baseline runs",
 		map[bool]string{false: "", true: " and every ordered pair of statement forms on one variable"}[r.Thorough()],
-		len(all), map[bool]string{false: "as single flips: each level with the switches off, each switch on alone at levels 0 and 2, all on at levels 0-2, each switch off alone at level 2; symbol allocation 16 and 1024 at two corners", true: "in all 8 combinations x symbol allocation {default,16,1024}"}[r.Thorough()], len(corpus)))
+		len(all), map[bool]string{false: "as single flips: in all 3 modes optimizer 2, each switch on alone, everything on; in dynamic mode optimizer 1 and 3, optimizer 2 with registers / with constfold, all switches on at level 0, symbol allocation 16 and 1024 at two corners", true: "in all 8 combinations x symbol allocation {default,16,1024}"}[r.Thorough()], len(corpus)))
 	r.Assume("the batch worker repeats ego's main() in one process per configuration; state leaking between its items can hide a difference but cannot raise one, because every disagreement is re-run in fresh `ego run` processes (twice per side) before it is reported",
 		"error messages are compared with source line numbers normalised",
 		"corpus test blocks whose text differs between two baseline runs (timings, ports, environment) are not compared; tests/{ai,server,sql,tables} are not run")
